@@ -55,6 +55,8 @@ def gen(r, tier, i):
              'shared_acc': r.random() < 0.5}
         if r.random() < 0.25:
             p['amount2'] = 10 * r.choice([1, 2, 5])      # a second port on the accumulator's node
+        if r.random() < 0.2:
+            p['pair'] = True       # two dictionary ports on one store, update dictionaries built once and reused
         if cls == 'weak':
             c = r.random()
             if c < 0.25:
@@ -247,6 +249,12 @@ def check_acc(V, spec, row, present, amounts, T):
         V.check('accumulator', row.get('shared_acc') == shared,
                 lambda: ('shared accumulator at t=%r is %r, sum of applied updates %r' % (T, row.get('shared_acc'), shared)))
     for p in spec['procs']:
+        if p.get('pair'):
+            cnt = sum(1 for pid, k in present if pid == p['pid'])
+            a = p.get('amount', 1)
+            got = row.get('pair', {}).get('p%d' % p['pid'])
+            V.check('accumulator', got == {'x': a * cnt, 'y': 10 * a * cnt},
+                    lambda: ('pair store of process %d at t=%r is %r, %d updates of x+=%r, y+=%r applied' % (p['pid'], T, got, cnt, a, 10 * a)))
         if not p.get('shared_acc'):
             exp = sum(amounts[pid] for pid, k in present if pid == p['pid'])
             got = row.get('acc', {}).get('p%d' % p['pid'])
